@@ -288,3 +288,71 @@ Definition nplurals_le_10 (c : scatalog) : Prop :=
 (* the guard for dropped previous-msgid annotations of obsolete entries *)
 Definition no_obsolete_prev (c : scatalog) : Prop :=
   Forall (fun e => s_obsolete e = true -> Forall (fun cl => match cl with CPrev _ _ => False | _ => True end) (s_pre e)) (sc_entries c).
+
+(* ================================================================================================
+   Part 3: the characters of the lines.
+
+   [render_bodies sp c] is the list of line bodies of catalog c (no padding, no line ends, no blank lines);
+   [sp] holds the separators used after a keyword, after #~, after #| and between msgstr[i] and its string.
+   A file of the family is obtained from the bodies by padding every line with white space on both sides
+   (the line end - LF or CR LF - is part of the right padding) and inserting white-space-only lines anywhere:
+   [file_of]. *)
+Record seps := mkSeps { sp_kw : str; sp_obs : str; sp_prev : str; sp_mx : str }.
+Definition sep_str_ok (s : str) : Prop := s <> [] /\ all_space s.
+Definition seps_ok (sp : seps) : Prop :=
+  sep_str_ok (sp_kw sp) /\ sep_str_ok (sp_obs sp) /\ sep_str_ok (sp_prev sp) /\ sep_str_ok (sp_mx sp).
+
+Definition quoted_text (c : chunk) : str := 34 :: chunk_text c ++ [34].
+
+Definition w_msgctxt : str := [109;115;103;99;116;120;116].
+Definition w_msgid : str := [109;115;103;105;100].
+Definition w_msgstr : str := [109;115;103;115;116;114].
+Definition w_msgid_plural : str := [109;115;103;105;100;95;112;108;117;114;97;108].
+
+(* a string: keyword line, then continuation lines; [pre] is the line prefix ("", "#~ ", "#| ", "#~| ") *)
+Definition string_bodies (sp : seps) (pre kw : str) (s : sstring) : list str :=
+  match s with
+  | [] => []
+  | c :: r => (pre ++ kw ++ sp_kw sp ++ quoted_text c) :: map (fun c' => pre ++ quoted_text c') r
+  end.
+
+Definition index_text (i : N) : str := if i <? 10 then [48 + i] else [48 + i / 10; 48 + i mod 10].
+Definition plural_bodies (sp : seps) (pre : str) (i : N) (s : sstring) : list str :=
+  match s with
+  | [] => []
+  | c :: r => (pre ++ w_msgstr ++ [91] ++ index_text i ++ [93] ++ sp_mx sp ++ quoted_text c) :: map (fun c' => pre ++ quoted_text c') r
+  end.
+Fixpoint plurals_bodies (sp : seps) (pre : str) (i : N) (l : list sstring) : list str :=
+  match l with [] => [] | s :: r => plural_bodies sp pre i s ++ plurals_bodies sp pre (i + 1) r end.
+
+Definition pkind_word (k : pkind) : str :=
+  match k with QCtxt => w_msgctxt | QId => w_msgid | QPlural => w_msgid_plural end.
+
+Definition cline_bodies (sp : seps) (obsolete : bool) (cl : cline) : list str :=
+  match cl with
+  | CTrans t => [35 :: match t with [] => [] | _ => 32 :: t end]
+  | CExtr sep t => [35 :: 46 :: sep :: t]
+  | CRefs sep refs => [35 :: 58 :: sep :: refs_body refs]
+  | CFlags sep items => [35 :: 44 :: sep :: flags_body items]
+  | CPrev k s => string_bodies sp (if obsolete then [35; 126; 124] ++ sp_prev sp else [35; 124] ++ sp_prev sp) (pkind_word k) s
+  end.
+
+Definition entry_bodies (sp : seps) (e : sentry) : list str :=
+  let pre := if s_obsolete e then [35; 126] ++ sp_obs sp else [] in
+  flat_map (cline_bodies sp (s_obsolete e)) (s_pre e) ++
+  match s_ctxt e with Some s => string_bodies sp pre w_msgctxt s | None => [] end ++
+  string_bodies sp pre w_msgid (s_id e) ++
+  match s_plural e with
+  | None => flat_map (string_bodies sp pre w_msgstr) (s_strs e)
+  | Some pl => string_bodies sp pre w_msgid_plural pl ++ plurals_bodies sp pre 0 (s_strs e)
+  end.
+
+Definition render_bodies (sp : seps) (c : scatalog) : list str :=
+  map (fun t => 35 :: match t with [] => [] | _ => 32 :: t end) (sc_header c) ++ flat_map (entry_bodies sp) (sc_entries c).
+
+(* the physical lines of a file: padded bodies, white-space-only lines anywhere *)
+Inductive file_of : list str -> list str -> Prop :=
+| file_nil : file_of [] []
+| file_blank bodies ws raws : all_space ws -> file_of bodies raws -> file_of bodies (ws :: raws)
+| file_line body lead trail bodies raws : all_space lead -> all_space trail -> file_of bodies raws ->
+    file_of (body :: bodies) ((lead ++ body ++ trail) :: raws).
